@@ -56,8 +56,16 @@ def run_witnesses():
                  built="test result:" in out)
         with open(resfile, "w") as f:
             json.dump(r, f)
-        for old in sorted(glob.glob(os.path.join(cdir, "*.json")), key=os.path.getmtime)[:-12]:
-            os.remove(old)
+        def _mt(x):
+            try:
+                return os.path.getmtime(x)
+            except OSError:
+                return 0
+        for old in sorted(glob.glob(os.path.join(cdir, "*.json")), key=_mt)[:-12]:
+            try:
+                os.remove(old)
+            except OSError:
+                pass
         _result_cache[key] = r
         return r
     finally:
